@@ -28,8 +28,9 @@ CaseTab ==
   [i \in 1..Len(Cases) |->
      LET c == Cases[i]
          defs == IF HasF(c, "defs") THEN c.defs ELSE <<>>
-     IN [code  |-> IF HasF(c, "code") THEN c.code ELSE CompileCmd(defs, c.cmds, 1).code,
-         amt   |-> IF HasF(c, "amtf") THEN c.amtf ELSE AmtFields(c.cmds[1].amt),
+         k == IF HasF(c, "cmdk") THEN c.cmdk ELSE 1
+     IN [code  |-> IF HasF(c, "code") THEN c.code ELSE CompileCmd(defs, c.cmds, k).code,
+         amt   |-> IF HasF(c, "amtf") THEN c.amtf ELSE AmtFields(c.cmds[k].amt),
          texts |-> TextsOfCase(c)]]
 
 VARIABLES ci, ti,       \* which case, which text
@@ -284,8 +285,9 @@ RefinesSemantics ==
   phase = "done" /\ ~HasF(Cases[ci], "code") =>
     LET c    == Cases[ci]
         defs == IF HasF(c, "defs") THEN c.defs ELSE <<>>
-        cx   == Ctx(Text, defs, c.cmds[1].body, QuirkCode)
-        E    == IF Text = <<>> THEN <<>> ELSE Window(FindAll(cx, c.cmds[1].body), c.cmds[1].amt)
+        kk   == IF HasF(c, "cmdk") THEN c.cmdk ELSE 1
+        cx   == Ctx(Text, defs, c.cmds[kk].body, QuirkCode)
+        E    == IF Text = <<>> THEN <<>> ELSE Window(FindAll(cx, c.cmds[kk].body), c.cmds[kk].amt)
     IN out = E
 
 (* C03: every reported match is a faithful, ordered, located slice          *)
